@@ -269,9 +269,20 @@ class HistScanner(UDSScanner):
             conn = self.db_handler.connection
             real_execute = conn.execute
 
+            seen = {"n": 0}
+
             async def held_execute(sql: str, *a: Any, **kw: Any) -> Any:
-                if env.gate is not None and not env.gate.is_set() and "scan_result" in sql and "INSERT" in sql.upper():
-                    await env.gate.wait()
+                if "scan_result" in sql and "INSERT" in sql.upper():
+                    if env.gate is not None and not env.gate.is_set():
+                        await env.gate.wait()
+                    seen["n"] += 1
+                    if env.stall == "busy" and seen["n"] in (3, 8, 9):
+                        # another process holds the database for a moment: sqlite's transient "database is
+                        # locked" (the writer retries; the request must still end up as exactly one row)
+                        import aiosqlite
+
+                        env.rec(e="DbBusy", n=seen["n"])
+                        raise aiosqlite.OperationalError("database is locked")
                 return await real_execute(sql, *a, **kw)
 
             conn.execute = held_execute  # type: ignore[method-assign]
@@ -444,7 +455,7 @@ async def _watchdog(env: Env) -> None:
 
 
 async def _run_one(hist: list[dict[str, Any]], db: Path, cancel_at: int | None, late: bool,
-                   stall: bool = False, key: str | None = None) -> dict[str, Any]:
+                   stall: bool | str = False, key: str | None = None) -> dict[str, Any]:
     env = Env(cancel_at, late, key)
     env.stall = stall
     _CURRENT.append(env)
@@ -506,7 +517,7 @@ def run_file(jobs: list[dict[str, Any]]) -> list[dict[str, Any]]:
         key = f"c11://target{Env._n}"  # the runs of one database file scan the SAME target (re-scans)
         for job in jobs:
             results.append(asyncio.run(_run_one(job["hist"], db, job.get("cancel_at"), bool(job.get("late")),
-                                                bool(job.get("stall")), key)))
+                                                job.get("stall") or False, key)))
         rows, runs = _decode_rows(db, t0)
         mine = {r["scan_run"] for r in results if r["scan_run"] is not None}
         stray = sum(1 for r in rows if r["run"] not in mine)
@@ -517,7 +528,7 @@ def run_file(jobs: list[dict[str, Any]]) -> list[dict[str, Any]]:
             aborted = bool(r["cancelled"]) or any(ev["e"] == "Abort" for ev in env.log)
             tr = build_trace(env, my, bool(r["closed"]), aborted, stray)
             tr["job"] = {"hist": job["hist"], "cancel_at": job.get("cancel_at"), "late": bool(job.get("late")),
-                         "stall": bool(job.get("stall"))}
+                         "stall": job.get("stall") or False}
             tr["main_points"] = env.main_points
             tr["points"] = env.points
             tr["rc"] = r["rc"]
